@@ -72,6 +72,10 @@ type Case struct {
 	LogLevel string `json:"log_level,omitempty"`
 	// LongTarget: the request target carries a further query parameter of that many bytes (a request line of several KiB)
 	LongTarget int `json:"long_target,omitempty"`
+	// ParamForm: what the two parameter values of the panicking route look like in the request target: 0 plain, 1 an escaped
+	// percent sign, 2 an escaped slash, 3 escaped dots and an escaped percent sign (the router matches the escaped target when
+	// the server kept one, so the values are the escaped forms)
+	ParamForm int `json:"param_form,omitempty"`
 	// Mounted (panic site "handler"): the handler hands its c.Writer() and request to a second router without Recovery,
 	// whose handler makes the progress and panics; the panic crosses both routers up to the Recovery of the first
 	Mounted bool `json:"mounted,omitempty"`
@@ -385,9 +389,16 @@ func checkCase(c *Case) (err error) {
 	before := snapshot(f)
 
 	method, path := "GET", "/boom/id-77/some/rest-88"
+	wantParams := []string{"id-77", "rest-88"}
+	forms := [][4]string{{"id-77", "rest-88", "id-77", "rest-88"}, {"100%2541", "rest-88", "100%41", "rest-88"}, {"id-77", "a%2Fb", "id-77", "a%2Fb"}, {"%2e%2e", "x%25y", "%2e%2e", "x%25y"}}[c.ParamForm%4]
+	if c.Kind == "route" {
+		path = "/boom/" + forms[0] + "/some/" + forms[1]
+		wantParams = []string{"id=" + forms[2], "rest=some/" + forms[3]}
+	}
 	switch c.Kind {
 	case "route-ts":
-		path = "/bts/id-77/rest-88/"
+		path = "/bts/" + forms[0] + "/" + forms[1] + "/"
+		wantParams = []string{"id=" + forms[2], "rest=" + forms[3]}
 	case "noroute":
 		path = "/nothing/here"
 	case "nomethod":
@@ -507,7 +518,7 @@ func checkCase(c *Case) (err error) {
 			if c.Kind == "route-ts" {
 				pat = "/bts/{id}/{rest}"
 			}
-			for _, s := range []string{pat, "id-77", "rest-88"} {
+			for _, s := range append([]string{pat}, wantParams...) {
 				if !strings.Contains(text, s) {
 					return fmt.Errorf("%sthe diagnostic record does not name %q (route and parameters): %s", desc, s, text)
 				}
@@ -605,6 +616,7 @@ func genCase(t *rapid.T) *Case {
 	c.CloneWith = gen.Chance(t, 1, 3, "clonewith")
 	c.LogLevel = gen.Pick(t, []string{"", "", "", "error", "off"}, "loglevel")
 	c.LongTarget = gen.Pick(t, []int{0, 0, 0, 0, 1000, 4090, 5000, 70000}, "longtarget")
+	c.ParamForm = gen.Pick(t, []int{0, 0, 0, 1, 2, 3}, "paramform")
 	c.Mounted = c.Where == "handler" && gen.Chance(t, 1, 4, "mounted")
 	c.RFWriter = gen.Chance(t, 1, 2, "rfwriter")
 	n := gen.IntR(t, 0, 6, "nheaders")
